@@ -38,8 +38,17 @@ PID = "C19"
 # torch batch=True with len(dims) != len(dimsd), flatten False and True; torch
 # flat-input gradient shape) were repaired in /repo (commits dfcf977, 1310770,
 # 5b7f0c6): nothing is suppressed any more.  A reintroduction is a VIOLATION.
-PROPOSED_KNOWN = []
-RAISES = {}
+# Still present (verified on /repo): two PyTensorOperator instances wrapping DIFFERENT
+# operators with identical (dims, dimsd, shape) compare equal (__props__ ignores the
+# operator), so pytensor's graph merge collapses A(x) and B(x) into one node.
+PROPOSED_KNOWN = [
+    {"id": "C19-pytensor-props-merge", "property": "C19", "framework": "pytensor", "kind": ["OFwd", "OScaled"],
+     "what": "PyTensorOperator(A)(x) and PyTensorOperator(B)(x) for two different operators with equal dims/dimsd/shape in one "
+             "compiled graph are merged (Op.__eq__ via __props__=('dims','dimsd','shape') ignores the wrapped operator): one of "
+             "them silently returns the other's value",
+     "trigger": "two wrappers of different same-shaped operators applied to the same variable in one pytensor.function"},
+]
+RAISES = {"C19-pytensor-props-merge": None}      # None: no exception, a wrong value
 
 
 def known_match(framework, cfg, ob):
@@ -63,6 +72,8 @@ def known_match(framework, cfg, ob):
     elif framework == "torch" and kind in ("OVjp", "OGrad") and not ob.get("nd") and ndd == 1 and nd > 1 \
             and cfg["dims"] != [1] * (nd - 1) + [cfg["N"]]:
         fid = "C19-torch-flat-grad-shape"
+    elif framework == "pytensor" and ob.get("joint") == "pair":
+        fid = "C19-pytensor-props-merge"
     if fid is None:
         return None
     ids = {k["id"] for k in PROPOSED_KNOWN} | {k.get("id") for k in common.load_known() if isinstance(k, dict)}
@@ -131,7 +142,7 @@ def gen_configs(tier):
     r = common.rng(PID, "cfg")
     n = 60 if tier == "quick" else 600
     fams = ["MatrixMult", "MatrixMultND", "FirstDerivative", "FirstDerivativeND", "Pad", "PadND", "Restriction",
-            "RestrictionND", "Sum", "Diagonal", "DiagonalND", "VStack", "VStackND", "HStack"]
+            "RestrictionND", "Sum", "Diagonal", "DiagonalND", "VStack", "VStackND", "HStack", "MatrixMultSq", "MatrixMultSqND"]
     ri = r.randint
     imat = lambda a, b: [[ri(-4, 4) for _ in range(b)] for _ in range(a)]  # noqa: E731
     cfgs = []
@@ -147,6 +158,12 @@ def gen_configs(tier):
             if ny == nx:
                 ny += 1
             c = ("MatrixMult", {"A": imat(ny, nx), "otherdims": [ri(1, 3)] if ri(0, 2) else [ri(1, 2), ri(1, 2)]})
+        elif f in ("MatrixMultSq", "MatrixMultSqND"):      # square, NOT symmetric (dims == dimsd)
+            nn = ri(2, 5) if f == "MatrixMultSq" else ri(2, 3)
+            A = imat(nn, nn)
+            if all(A[a][b] == A[b][a] for a in range(nn) for b in range(nn)):
+                A[0][1] = A[1][0] + 1
+            c = ("MatrixMult", {"A": A} if f == "MatrixMultSq" else {"A": A, "otherdims": [ri(2, 3)] if ri(0, 1) else [2, ri(1, 2)]})
         elif f == "FirstDerivative":
             c = ("FirstDerivative", {"dims": [ri(3, 9)], "axis": 0, "kind": r.choice(["forward", "centered", "backward"])})
         elif f == "FirstDerivativeND":
@@ -240,6 +257,19 @@ def plan(framework, cfg):
         obs.append({"kind": "OFwd", "xs": dims, "x": ivec(r, N)})
         obs.append({"kind": "OVjp", "xs": dims, "x": ivec(r, N), "g": ivec(r, M)})
         obs.append({"kind": "OGrad", "xs": dims, "x": ivec(r, N), "y": ivec(r, M)})
+        # two wrappers (Op and 2*Op: same dims/dimsd/shape) on the same variable in ONE compiled graph
+        x = ivec(r, N)
+        obs.append({"kind": "OFwd", "xs": dims, "x": x, "joint": "pair", "part": 0})
+        obs.append({"kind": "OScaled", "s": 2, "xs": dims, "x": x, "joint": "pair", "part": 1})
+        if dims == dimsd:
+            # forward and adjoint applied to the SAME variable inside one compiled graph
+            x = ivec(r, N)
+            obs.append({"kind": "OFwd", "xs": dims, "x": x, "joint": "valvjp", "part": 0})
+            obs.append({"kind": "OVjp", "xs": dims, "x": x, "g": x, "joint": "valvjp", "part": 1, "tie_g": True})
+            obs.append({"kind": "OQuad", "xs": dims, "x": ivec(r, N), "joint": "quad", "part": 0})
+            x = ivec(r, N)
+            obs.append({"kind": "OGrad", "xs": dims, "x": x, "y": [0] * M, "joint": "hess", "part": 0, "zero_y": True})
+            obs.append({"kind": "OFwd2", "xs": dims, "x": x, "joint": "hess", "part": 1})
     return obs
 
 
@@ -324,8 +354,19 @@ def _observe(ctx, ob):
             "OVjp": pytensor.function([xv, yv], pytensor.grad(None, xv, known_grads={out: yv}), mode="FAST_COMPILE",
                                      on_unused_input="ignore"),
         }
+        sv = pt.tensor(dtype="float64", shape=tuple(cfg["dims"]))
+        ig = {"mode": "FAST_COMPILE", "on_unused_input": "ignore"}
+        fns["pair"] = lambda: pytensor.function([xv], [out, PyTensorOperator(ctx.op() * 2.0)(xv)], **ig)
+        fns["valvjp"] = lambda: pytensor.function([xv], [out, pytensor.grad(None, xv, known_grads={out: xv})], **ig)
+        fns["quad"] = lambda: pytensor.function([sv], [pytensor.grad((sv * P(sv)).sum(), sv)], **ig)
+        fns["hess"] = lambda: pytensor.function([xv], [pytensor.grad(0.5 * (out ** 2).sum(), xv), P(out)], **ig)
         ctx.cache["P"] = fns
     fns = ctx.cache["P"]
+    if ob.get("joint"):
+        key = "joint:" + ob["joint"]
+        if key not in ctx.cache:
+            ctx.cache[key] = fns[ob["joint"]]()
+        return _out(ctx.cache[key](x)[ob["part"]])
     if kind == "OFwd":
         return _out(fns["OFwd"](x))
     if kind == "OVjp":
@@ -347,6 +388,12 @@ def expected(cfg, ob):
         return ob["xs"], A.T @ (A @ x - np.asarray(ob["y"], dtype=float))
     if kind == "OJax":
         return [N], A.T @ np.asarray(ob["g"], dtype=float)
+    if kind == "OQuad":
+        return ob["xs"], A @ x + A.T @ x
+    if kind == "OFwd2":
+        return (dimsd if ob["xs"] == dims else [M]), A @ (A @ x)
+    if kind == "OScaled":
+        return (dimsd if ob["xs"] == dims else [M]), ob["s"] * (A @ x)
     B = ob["xs"][0]
     X = x.reshape(B, N)
     if kind == "OBFwd":
@@ -386,6 +433,8 @@ def shrink(framework, cfg, ob, tol):
             g = [0] * M
             g[j % M] = 1
             c["g"] = g
+        if ob.get("tie_g"):
+            c["g"] = list(e)
         cands.append(c)
     for c in cands:
         try:
@@ -423,6 +472,12 @@ def obs_lit(ob, res):
         return "OBVjp %s %s %s %s %s" % (b(ob["flatten"]), NAT(ob["xs"]), V(ob["x"]), V(ob["g"]), res_lit(res))
     if k == "OBGrad":
         return "OBGrad %s %s %s %s %s" % (b(ob["flatten"]), NAT(ob["xs"]), V(ob["x"]), V(ob["y"]), res_lit(res))
+    if k == "OQuad":
+        return "OQuad %s %s %s" % (NAT(ob["xs"]), V(ob["x"]), res_lit(res))
+    if k == "OFwd2":
+        return "OFwd2 %s %s %s" % (NAT(ob["xs"]), V(ob["x"]), res_lit(res))
+    if k == "OScaled":
+        return "OScaled %s %s %s %s" % (common.qlit(ob["s"]), NAT(ob["xs"]), V(ob["x"]), res_lit(res))
     return "OJax %s %s %s" % (NAT(ob["xs"]), V(ob["g"]), res_lit(res))
 
 
@@ -547,7 +602,7 @@ def main(tier):
         raise SystemExit("C19 canary not detected (got %s): comparison pipeline broken" % sorted(can))
 
     evals, nontriv, kinds, fwcount, ranks = 0, set(), {}, {}, {"equal": 0, "differ": 0}
-    model_ok, n_obl = 0, 0
+    model_ok, n_obl, n_known_obs = 0, 0, 0
     for cid, fw, cfg, pairs in cases:
         codes = failing.get(cid, [])
         ranks["equal" if len(cfg["dims"]) == len(cfg["dimsd"]) else "differ"] += 1
@@ -566,14 +621,18 @@ def main(tier):
             if not m_bad:
                 model_ok += 1
             label = "%s %s(%s) dtype=%s %s%s" % (fw, cfg["family"], json.dumps(cfg["params"]), cfg["dtype"], ob["kind"],
-                                                 "" if "flatten" not in ob else " flatten=%s" % ob["flatten"])
+                                                 ("" if "flatten" not in ob else " flatten=%s" % ob["flatten"]) +
+                                                 ("" if "joint" not in ob else " [one graph: %s, output %d]" % (ob["joint"], ob["part"])))
             if s_bad:
                 fid = known_match(fw, cfg, ob)
-                if fid and res[0] == "raised" and res[1] == RAISES.get(fid):
+                if fid and ((RAISES.get(fid, "") is None and res[0] == "ok") or (res[0] == "raised" and res[1] == RAISES.get(fid))):
                     what = next((k.get("what", fid) for k in PROPOSED_KNOWN + [k for k in common.load_known() if isinstance(k, dict)]
                                  if k.get("id") == fid), fid)
                     R.known_finding(fid, "%s [%s]" % (what, fid))
-                    if m_bad:
+                    if m_bad and RAISES.get(fid, "") is None:
+                        n_obl -= 1          # engine-level merge: not an obligation of the code-shaped model; counted separately
+                        n_known_obs += 1
+                    if m_bad and RAISES.get(fid, "") is not None:     # (which node survives a merge is the engine's business)
                         R.violation("model does not predict the recorded defect %s on %s" % (fid, label),
                                     {"framework": fw, "family": cfg["family"], "params": cfg["params"], "obs": ob,
                                      "broken": "Corr.CheckC19.model vs implementation"}, no_input=True)
@@ -608,7 +667,7 @@ def main(tier):
              "integer vectors in [-4,4] (flat; dims-shaped; torch batch=True with flatten True/False, batch size 1-3; jax vjp, grad, "
              "rmatvecad; pytensor grad / known_grads); non-trivial = distinct (framework, configuration, observation kind, input) whose "
              "specified output is not identically zero",
-        configurations=len(cfgs), cases=len(cases), per_framework=fwcount, per_kind=kinds, dims_vs_dimsd_rank=ranks,
+        configurations=len(cfgs), cases=len(cases), known_finding_observations=n_known_obs, per_framework=fwcount, per_kind=kinds, dims_vs_dimsd_rank=ranks,
         families=sorted({c["family"] for c in cfgs}), dtypes=sorted({c["dtype"] for c in cfgs}),
         t_frameworks=times, t_python=round(t_py, 1), t_coq=round(t_coq, 1),
         modelled="TorchOperator batch transposes, LinearOperator.dot N-d reshaping, column-wise matmat, JaxOperator.rmatvecad shape "
